@@ -39,7 +39,8 @@ getters' own source (cells over: in the main crossing / complex window / derived
 pyunigen sampling call, which ends the process on an unsatisfiable formula, is dominated by a satisfiability test with
 an empty early return, and the pycmsgen adapter maps 'no model' to the empty result; (no crossing) every lookup of a
 per-crossing list by the main-crossing index in the combinatoric sampler is reached only when the block has crossings;
-(empty request) the cardinality encoder's entry points never pass a possibly empty variable list to a helper that raises on it.
+(empty request) the cardinality encoder's entry points never pass a possibly empty variable list to a helper that raises on it;
+(encoded factors) an encoder that walks the block's factors and asks for their variables walks act_design, not design.
 """
 NOT_DECIDED = "KeyError / IndexError from data-dependent indices (layout arithmetic, user level names), exceptions raised inside user predicates, solver processes that fail, and designs that the constructors should have refused."
 
@@ -872,6 +873,13 @@ def rule_no_crossing(ctx):
                         dotted(x.slice) and dotted(x.slice).split(".")[-1] == "main_crossing":
                     F = F or Facts(f)
                     conds = F.conds(st)
+                    # a conditional expression around the lookup guards it as well: `0 if crossings == [] else xs[main]`
+                    from ..sym import cond_literals as _cl0
+                    for ie in [y for y in ast.walk(st) if isinstance(y, ast.IfExp)]:
+                        if any(z is x for z in ast.walk(ie.body)):
+                            conds = conds + _cl0(ie.test, True)
+                        elif any(z is x for z in ast.walk(ie.orelse)):
+                            conds = conds + _cl0(ie.test, False)
                     if isinstance(st, ast.While):
                         # the loop test itself may carry the guard as an earlier conjunct
                         from ..sym import cond_literals as _cl
@@ -932,6 +940,39 @@ def rule_empty_request(ctx):
     ctx.require(n >= 2, "cardinality entry points not analysed")
 
 
+VARIABLE_ACCESSORS = ("build_variable_lists", "get_variable", "first_variable_for_level", "factor_variables_for_trial", "encode_combination")
+
+
+def rule_encoded_factors(ctx):
+    """Only the factors of act_design have variables (implied factors are computed after sampling).  An encoder that walks the
+    block's factors and asks for their variables must walk act_design -- as Consistency does --, not design: for a design with an
+    implied derived factor the variable lookup raises ValueError."""
+    R = "C08.encoded-factors"
+    base = ctx.repo.cls("base_constraint:Constraint")
+    n = 0
+    for c in sorted(base.all_subclasses(), key=lambda c_: c_.name):
+        for name, m in sorted(c.methods.items()):
+            if name not in ("apply", "apply_to_backend_request") or isinstance(m.node, ast.Lambda):
+                continue
+            for lp in [x for x in statements(m.node) if isinstance(x, ast.For)]:
+                it = lp.iter
+                while isinstance(it, ast.Call) and dotted(it.func) in ("filter", "list", "sorted", "enumerate", "reversed") and it.args:
+                    it = it.args[-1]
+                d = dotted(it)
+                if d not in ("block.design", "block.act_design"):
+                    continue
+                tn = {x.id for x in ast.walk(lp.target) if isinstance(x, ast.Name)}
+                uses = [cl for cl in ast.walk(lp) if isinstance(cl, ast.Call) and call_attr(cl) in VARIABLE_ACCESSORS and
+                        any(isinstance(a_, ast.Name) and a_.id in tn for arg in cl.args for a_ in ast.walk(arg))]
+                if not uses:
+                    continue
+                n += 1
+                ctx.check(d == "block.act_design", R, m, "%s.%s walks %s" % (c.name, name, d), "the encoder asks for variables of the factors that have them (act_design)",
+                          "%s.%s asks %s(..) for the variables of every factor in `%s`: an implied derived factor has no variables, so a design that contains one "
+                          "makes the SAT samplers raise ValueError (the sibling Consistency walks act_design)" % (c.name, name, call_attr(uses[0]), d), lp)
+    ctx.require(n >= 1, "no encoder loop over the block factors found (Sustain confirmed by hand)")
+
+
 def check(ctx):
     repo = ctx.repo
     cg = CallGraph(repo)
@@ -950,6 +991,7 @@ def check(ctx):
     rule_backend_unsat(ctx)
     rule_no_crossing(ctx)
     rule_empty_request(ctx)
+    rule_encoded_factors(ctx)
 
     mod = sys.modules[__name__]
     C = "sweetpea/_internal/constraint.py"
@@ -984,6 +1026,8 @@ def check(ctx):
     control(ctx, mod, "pop count of a possibly empty request list",
             lambda s: variants.in_function(s, "sweetpea/_internal/core/cnf.py", "CNF.assert_k_of_n",
                                            "        if not in_list:\n            # None of no variables is true: nothing to assert.\n            return\n", ""), "C08.empty-request")
+    control(ctx, mod, "Sustain walks the whole design, implied factors included",
+            lambda s: variants.in_function(s, C, "Sustain.apply", "for f in block.act_design:", "for f in block.design:"), "C08.encoded-factors")
     ctx.min_instances("C08.emptiness", 10)
     ctx.min_instances("C08.window-bound", 4)
     ctx.min_instances("C08.divisor", 25)
@@ -995,3 +1039,4 @@ def check(ctx):
     ctx.min_instances("C08.backend-unsat", 2)
     ctx.min_instances("C08.no-crossing", 6)
     ctx.min_instances("C08.empty-request", 2)
+    ctx.min_instances("C08.encoded-factors", 1)
